@@ -360,7 +360,7 @@ def main():
     bounded_runs = []
     if P.get('native'):
         try:
-            for nr in native_run.run_tests(P['native']):
+            for nr in native_run.run_tests(P['native'], tier=args.tier):
                 checker_cmds.append(nr['cmd'])
                 bounded_runs.append('BOUNDED (not counted as proved) %s: %s; %d cases; functions %s; reason: %s' % (nr['id'], nr['bound'], nr['evaluations'], ', '.join(nr['functions']), nr['why']))
                 functions_under_contract += [dict(unit='native-bounded:' + nr['id'], function=fn, bounded=True) for fn in nr['functions']]
